@@ -427,6 +427,19 @@ def chunk_stream(variant: str) -> bytes:
         text = f"event: endpoint{nl}data: /messages/?session_id=abc{nl}{nl}" + "".join(
             f"event: message{nl}data: {json.dumps(m)}{nl}{nl}" for m in msgs)
         return text.encode("utf-8"), msgs
+    if variant.startswith("big-"):
+        # big-<kind>-<n>-lf|crlf: one event whose data line is about n characters long, between two small ones
+        _, kind, n, _eol = variant.split("-")
+        n = int(n)
+        pad = "\u00e9" + "x" * n + "\U0001F600"
+        small1 = {"jsonrpc": "2.0", "method": "notifications/message", "params": {"i": 1}}
+        big = {"jsonrpc": "2.0", "id": "srv-big", "result": {"text": pad}} if kind == "resp" else \
+            {"jsonrpc": "2.0", "method": "notifications/message", "params": {"data": pad}}
+        small2 = {"jsonrpc": "2.0", "id": "srv-2", "result": {"after": True}}
+        msgs = [small1, big, small2]
+        text = f"event: endpoint{nl}data: /messages/?session_id=abc{nl}{nl}" + "".join(
+            f"event: message{nl}data: {json.dumps(m, ensure_ascii=False)}{nl}{nl}" for m in msgs)
+        return text.encode("utf-8"), msgs
     short = "short" in variant
 
     untyped = "untyped" in variant
@@ -500,8 +513,13 @@ def run_chunks(ctl: explorer.Ctl, cfg: Dict[str, Any]) -> Dict[str, Any]:
     elif not (len(norm) == len(expected) and all(strict_eq(a, b) for a, b in zip(norm, expected))):
         cls = "chunking-lost-message" if len(norm) < len(expected) else (
             "chunking-duplicated-message" if len(norm) > len(expected) else "chunking-altered-message")
-        viol.append({"sig": {"class": cls, "cut": _cut_kind(data, cuts), "events": "untyped" if "untyped" in cfg["variant"] else "typed"},
-                     "msg": f"variant={cfg['variant']} cuts={cuts}: delivered {norm}, expected {expected}"})
+        sig = {"class": cls, "cut": _cut_kind(data, cuts), "events": "untyped" if "untyped" in cfg["variant"] else "typed"}
+        if cfg["variant"].startswith("big-"):
+            sig["line_length"] = "over-64KiB" if int(cfg["variant"].split("-")[2]) >= 65536 else "under-64KiB"
+            sig["pieces"] = "one" if not cuts else "several"
+        viol.append({"sig": sig,
+                     "msg": f"variant={cfg['variant']} cuts={cuts[:6]}{'...' if len(cuts) > 6 else ''}: delivered "
+                            f"{core.clean_repr(norm, 400)}, expected {core.clean_repr(expected, 400)}"})
     if errors:
         viol.append({"sig": {"class": "loop-error"}, "msg": f"{errors[:2]}"})
     obs["outcome"] = f"delivered={len(norm)}/{_cut_kind(data, cuts)}"
@@ -684,6 +702,101 @@ def two_configs() -> List[Dict[str, Any]]:
 
 
 # ---------------------------------------------------------------------------
+# (3c) the server processed the POST (and emits its answer on the event stream) but the HTTP reply never arrives
+# ---------------------------------------------------------------------------
+RUN_LOST = "vf.checks.c12:run_lost_reply"
+LOST_EXC = ["RemoteProtocolError", "ReadError", "ConnectError", "ReadTimeout", "WriteError", "PoolTimeout"]
+LOST_WHEN = ["answer-event-before-the-post-fails", "answer-event-after-the-post-failed", "no-answer-event"]
+
+
+def run_lost_reply(ctl: explorer.Ctl, cfg: Dict[str, Any]) -> Dict[str, Any]:
+    from chuk_mcp.protocol.messages.json_rpc_message import JSONRPCNotification, JSONRPCRequest
+    from chuk_mcp.transports.sse.sse_client import sse_client
+
+    exc_name, when, kind = LOST_EXC[cfg["exc"]], LOST_WHEN[cfg["when"]], cfg["kind"]
+    rid = None if kind == "notification" else RIDS[kind]
+    loop = new_loop(horizon=60)
+    q = seams.Quiescence(loop)
+    stream = ScriptedStream()
+    stream.feed(ENDPOINT_FORMS["abs-path"][0].encode())
+    posts: List[Any] = []
+    got: List[Any] = []
+
+    async def handler(rec):
+        if rec.method == "GET":
+            return httpx.Response(200, headers={"content-type": "text/event-stream"}, stream=stream)
+        sent = rec.json()
+        posts.append(sent)
+        # the server handles EVERY POST it receives: the n-th POST of a request is answered with n
+        if isinstance(sent, dict) and "id" in sent and when != "no-answer-event":
+            answer = ev({"jsonrpc": "2.0", "id": sent["id"], "result": {"answer_to_post_number": len(posts), "t": SEPS}}).encode()
+            if when == "answer-event-before-the-post-fails":
+                stream.feed(answer)
+                for _ in range(8):
+                    await asyncio.sleep(0)
+            else:
+                loop.call_later(0.05, stream.feed, answer)
+        return getattr(httpx, exc_name)("the reply to this POST was lost")
+
+    async def main():
+        with patched_httpx(handler):
+            async with sse_client(_params()) as (read, write):
+                if rid is None:
+                    await write.send(JSONRPCNotification(method="notifications/initialized", params={}))
+                else:
+                    await write.send(JSONRPCRequest(id=rid, method="tools/list"))
+                await asyncio.sleep(TIMEOUT + 1.0)
+                await q.settle()
+                got.extend(dump_msg(m) for m in drain(read))
+
+    status, val = loop.run_main(main())
+    errors = loop.collect_errors()
+    loop.abandon()
+    viol: List[dict] = []
+
+    def bad(cls, msg, **extra):
+        viol.append({"sig": {"class": cls, "post_fails_with": exc_name, "when": when,
+                             "message": "notification" if rid is None else "request", **extra},
+                     "msg": f"POST fails with httpx.{exc_name}, {when}, request id {rid!r}: {msg}; server received {len(posts)} "
+                            f"POST(s); read stream={core.clean_repr(got, 400)}"})
+
+    if status != "ok":
+        bad("did-not-finish", f"{status} {core.clean_repr(val)}")
+        return {"outcome": status, "violations": viol}
+    if not posts:
+        raise core.HarnessError("seam missing: the request was never POSTed")
+    # a message is written to the server ONCE: sending it again makes the server act on it twice
+    if len(posts) != 1:
+        bad("message-posted-more-than-once", f"the server received the same message {len(posts)} times: {posts}", posts=len(posts))
+    mine = [m for m in got if isinstance(m, dict) and "method" not in m]
+    if rid is None:
+        if any(m.get("id") is not None for m in mine):
+            bad("id-invented-for-notification", f"{mine}")
+    else:
+        own = [m for m in mine if type(m.get("id")) is type(rid) and m.get("id") == rid]
+        if len(own) != len(mine):
+            bad("id-type-changed", f"{mine}", id_kind=kind)
+        # an answer event that arrives after the transport has reported the failed POST is outside the statement's modes
+        # (like one arriving after the timeout error): one or two messages are accepted then
+        allowed = (1, 2) if when == "answer-event-after-the-post-failed" else (1,)
+        if len(mine) not in allowed:
+            bad("no-terminal-message" if not mine else "duplicate-terminal", f"{len(mine)} terminal messages")
+        for m in mine:
+            if classify({**m, "id": rid})[0] not in ("error", "result"):
+                bad("invalid-terminal", f"{m}")
+            if isinstance(m.get("result"), dict) and m["result"].get("answer_to_post_number", 1) != 1:
+                bad("answer-to-a-repeated-post-delivered", f"{m}")
+    if errors:
+        bad("loop-error", f"{errors[:2]}")
+    return {"outcome": f"posts={len(posts)}/terminals={len(mine)}", "violations": viol}
+
+
+def lost_reply_configs() -> List[Dict[str, Any]]:
+    return [{"exc": e, "when": w, "kind": k} for e in range(len(LOST_EXC)) for w in range(len(LOST_WHEN))
+            for k in list(RIDS) + ["notification"]]
+
+
+# ---------------------------------------------------------------------------
 # (4) exit paths
 # ---------------------------------------------------------------------------
 class _BodyError(Exception):
@@ -834,6 +947,23 @@ def configs_for(tier: str):
         for variant in ("burst-lf", "burst-crlf"):
             chunks.append({"variant": f"{variant}-{n}", "cuts": []})
             chunks.append({"variant": f"{variant}-{n}", "cuts": [4096, 8192]})
+    for kind in ("resp", "note"):
+        for n in (61440, 65535, 65536, 65537, 204800):
+            for eol in ("lf", "crlf"):
+                variant = f"big-{kind}-{n}-{eol}"
+                data, _ = chunk_stream(variant)
+                start = data.index(b"data: {", data.index(b"srv-big") - 40 if kind == "resp" else data.index(b'"i": 1') + 10)
+                L = len(data)
+                cutsets = [[], list(range(16384, L, 16384)), list(range(65536, L, 65536))]
+                for around in (start + 65536, start + 6 + 65536):
+                    for d in (-1, 0, 1):
+                        if 0 < around + d < L:
+                            cutsets.append([around + d])
+                cutsets.append([start + 10, L - 30])          # the head and the tail of the big line arrive separately
+                for cs in cutsets:
+                    # never cut inside a multi-byte character here (that is the other variants' subject)
+                    cs = [c for c in cs if (data[c] & 0xC0) != 0x80]
+                    chunks.append({"variant": variant, "cuts": cs})
     for variant in ("short-lf", "short-crlf"):
         data, _ = chunk_stream(variant)
         # pairs: quick = every pair with one cut inside the region after the endpoint event; thorough = all pairs
@@ -861,6 +991,7 @@ def run(tier: str, only=None) -> core.Result:
     for name, ref, cfgs in (("establishment", RUN_EST, est), ("request-life-cycle", RUN_REQ, req),
                             ("traffic-after-a-finished-request", RUN_AFTER, after),
                             ("event-stream-chunking", RUN_CHUNK, chunks), ("two-connections-alive", RUN_TWO, two_configs()),
+                            ("post-reply-lost-after-the-server-acted", RUN_LOST, lost_reply_configs()),
                             ("exit-paths", RUN_EXIT, exits)):
         if only and name not in only:
             continue
@@ -882,9 +1013,14 @@ def run(tier: str, only=None) -> core.Result:
         "(/messages/, /mcp, http://x/mcp?a=1) in typed and untyped events; two connections alive at once (own hosts, own event "
         "streams), one request pending on each with the same / different ids: every order of {202 for X, 202 for Y, answer event "
         "on X, answer event on Y}; X leaves while Y is pending and Y is then answered / stays silent until the timeout; both silent "
-        "- each connection must read exactly what it reads alone (its own connection-specific payload or one timeout error); exit: 4 exit paths x 4 moments x 2 cancellation delivery orders"
+        "- each connection must read exactly what it reads alone (its own connection-specific payload or one timeout error); big data "
+        "lines (60 KiB, 64 KiB +- 1, 200 KiB; response and notification) in one piece, 16 KiB pieces, 64 KiB pieces and cut 1 byte "
+        "around the 64 KiB mark; the POST's reply lost (6 httpx exceptions) although the server acted on it and answers every POST "
+        "it receives, the answer event before / after the failure / never: the message is POSTed once, exactly one terminal; exit: 4 exit paths x 4 moments x 2 cancellation delivery orders"
     )
     res.assumptions = [
+        "an answer event arriving after the transport has already reported the failed POST is outside the statement's modes: one or "
+        "two messages are accepted then; the POST count (exactly one per message) is judged in every case",
         "a response event arriving after the transport already synthesised its timeout error is outside the statement's modes: one or two messages are accepted then",
         "the event stream uses the canonical 'event: x / data: y' encoding with LF or CRLF; other SSE encodings are C11's subject",
         "HTTP-level timeouts are not modelled (no sockets); the transport's own asyncio timeouts run on the virtual clock",
